@@ -89,8 +89,8 @@ def frame_str(fr) -> str:
     joins = ";".join(f"{_idx(j[0])}>{'.'.join(_idx(t) for t in j[1])}" for j in fr["joins"])
     wh = ".".join(_idx(t) for t in fr["where"])
     sel = ",".join(f"{_idx(t)}.{n}" for t, n in fr["sel"])
-    return (f"C:{ctes}|F:{fr['from']}|J:{joins}|W:{wh}|S:{sel}|B:{fr['branch']}|Q:{fr['seq']}|L:{fr['last_op']}"
-            f"|U:{fr['uuids']}")
+    return (f"C:{ctes}~F:{fr['from']}~J:{joins}~W:{wh}~S:{sel}~B:{fr['branch']}~Q:{fr['seq']}~L:{fr['last_op']}"
+            f"~U:{fr['uuids']}")
 
 
 def regs_str(r) -> str:
